@@ -483,7 +483,10 @@ def run_pha_negative(ctx, cid, P):
     must not be recorded and the server answers with a fatal alert"""
     k = P["neg"]
     rng = ctx.rng
-    p, tc, ts = establish(rng, (3, 4), False, rng.choice(["rsa", "ecdsa"]))
+    # (a P-256 key has a single TLS 1.3 scheme: "another scheme" needs RSA)
+    p, tc, ts = establish(rng, (3, 4), False,
+                          "rsa" if k == "pha_scheme_not_advertised"
+                          else rng.choice(["rsa", "ecdsa"]))
     if tc.status != "done" or ts.status != "done":
         ctx.inconc("control failed in %s" % cid)
         return
